@@ -79,7 +79,7 @@ def run(ctx):
             r.eq('first-cancel', eff, ['std::cell::Cell::set(self.cancelled, true)', 'channel::Channel::basic_cancel(self.channel, self)'], site,
                  why='flag set before the request so that a failing or repeated cancel never sends twice')
         evs, ret = ctx.events("<consumer::Consumer<'_> as std::ops::Drop>::drop")
-        r.check('drop-cancels', any(e.kind == 'call' and e.callee == 'consumer::Consumer::cancel' and S.show(e.args[0]) == 'self' for e in evs), ctx.site("<consumer::Consumer<'_> as std::ops::Drop>::drop"))
+        r.check('drop-cancels', any(e.kind == 'call' and e.callee == 'consumer::Consumer::cancel' and S.show(e.args[0]) == 'self' and S.unconditional(e, evs) for e in evs), ctx.site("<consumer::Consumer<'_> as std::ops::Drop>::drop"))
         ems, ret, events = W.read_op(ctx, 'consumer::Consumer::cancel', ['self'])
         ok = len(ems) == 1 and ems[0].sink == 'call' and ems[0].method == 'Cancel' and ems[0].fields == {'consumer_tag': 'self.consumer_tag', 'nowait': 'false'} \
             and ems[0].reply == 'amq_protocol::protocol::basic::CancelOk' and ems[0].on == 'self.channel'
